@@ -2554,3 +2554,114 @@ func (in *pkgInliner) isFuncTyped(t ast.Expr) bool {
 	}
 	return false
 }
+
+// renameTypesBack: an unexported named type of the inventory that is gone, and a new unexported type of the same
+// package that carries every inventory method of it (same names) and that no inventory type accounts for, are the
+// same type under a new name. The new name is replaced by the inventory name in the source (overlay), so that every
+// later stage — function keys, canonical expressions, owner types — sees the reference name. Returns nil when there
+// is nothing to do or the match is not unique.
+func renameTypesBack(roots []*packages.Package, inv map[string]string) (map[string][]byte, []string) {
+	refMethods := map[string]map[string]bool{} // pkg.T -> method names
+	for k := range inv {
+		pk := pkgOfKey(k)
+		rest := strings.TrimPrefix(k, pk+".")
+		if t, m, ok := strings.Cut(rest, "."); ok {
+			key := pk + "." + t
+			if refMethods[key] == nil {
+				refMethods[key] = map[string]bool{}
+			}
+			refMethods[key][m] = true
+		}
+	}
+	for _, l := range strings.Split(inventoryText, "\n") {
+		if strings.HasPrefix(l, "field:") {
+			key := strings.TrimPrefix(strings.SplitN(l, "\t", 2)[0], "field:")
+			if refMethods[key] == nil {
+				refMethods[key] = map[string]bool{}
+			}
+		}
+	}
+	overlay := map[string][]byte{}
+	var notes []string
+	for _, p := range roots {
+		if !strings.HasPrefix(p.PkgPath, libPath) || p.TypesInfo == nil || p.Types == nil {
+			continue
+		}
+		cur := map[string]*types.TypeName{}
+		for _, n := range p.Types.Scope().Names() {
+			if tn, ok := p.Types.Scope().Lookup(n).(*types.TypeName); ok && !tn.IsAlias() {
+				cur[n] = tn
+			}
+		}
+		rename := map[*types.TypeName]string{}
+		for key, ms := range refMethods {
+			if pkgOfKey(key+".x") != p.PkgPath {
+				continue
+			}
+			old := key[len(p.PkgPath)+1:]
+			if _, ok := cur[old]; ok || ast.IsExported(old) || p.Types.Scope().Lookup(old) != nil {
+				continue
+			}
+			var cands []*types.TypeName
+			for n, tn := range cur {
+				if _, isRef := refMethods[p.PkgPath+"."+n]; isRef || ast.IsExported(n) {
+					continue
+				}
+				have := map[string]bool{}
+				for _, t := range []types.Type{tn.Type(), types.NewPointer(tn.Type())} {
+					mset := types.NewMethodSet(t)
+					for i := 0; i < mset.Len(); i++ {
+						have[mset.At(i).Obj().Name()] = true
+					}
+				}
+				all := len(ms) > 0
+				for m := range ms {
+					if !have[m] {
+						all = false
+					}
+				}
+				if all {
+					cands = append(cands, tn)
+				}
+			}
+			if len(cands) == 1 {
+				rename[cands[0]] = old
+			}
+		}
+		if len(rename) == 0 {
+			continue
+		}
+		for _, f := range p.Syntax {
+			changed := false
+			ast.Inspect(f, func(n ast.Node) bool {
+				id, ok := n.(*ast.Ident)
+				if !ok {
+					return true
+				}
+				obj := p.TypesInfo.ObjectOf(id)
+				if tn, ok := obj.(*types.TypeName); ok {
+					if old, ok := rename[tn]; ok {
+						id.Name = old
+						changed = true
+					}
+				}
+				return true
+			})
+			if changed {
+				var buf bytes.Buffer
+				if err := format.Node(&buf, p.Fset, f); err != nil {
+					return nil, nil
+				}
+				overlay[p.Fset.File(f.Pos()).Name()] = buf.Bytes()
+			}
+		}
+		for tn, old := range rename {
+			notes = append(notes, fmt.Sprintf("renamed type: %s.%s is analysed under its inventory name %s (it carries every inventory method of %s, which is gone)", p.PkgPath, tn.Name(), old, old))
+		}
+	}
+	if len(overlay) == 0 {
+		return nil, nil
+	}
+	sort.Strings(notes)
+	return overlay, notes
+}
